@@ -22,6 +22,10 @@ import Driver.OpsAlloc
 import Driver.OpsInitFini
 import Driver.OpsThunks
 import Driver.OpsSymTab
+import Driver.OpsPartial
+import Driver.OpsC26C22
+import Driver.OpsGc
+import Driver.OpsEhFrame
 /-! `wmdriver`: evaluates the executable Lean models on the same line protocol as `wvh`. -/
 namespace Driver
 
@@ -55,6 +59,10 @@ def dispatch (t : List String) : String :=
       <|> (opsInitFini t)
       <|> (opsThunks t)
       <|> (opsSymTab t)
+      <|> (opsPartial t)
+      <|> (opsC26C22 t)
+      <|> (opsGc t)
+      <|> (opsEhFrame t)
       -- <|> (opsFoo t)
     r.getD "bad-op"
 
